@@ -50,6 +50,7 @@ type GhostSpec struct {
 	Argv    []string `json:"argv,omitempty"`
 	MinStep int      `json:"min_step,omitempty"`
 	DurMs   int      `json:"dur_ms,omitempty"`
+	DurUs   int      `json:"dur_us,omitempty"` // added to DurMs (tick ghosts): time that is not a whole number of milliseconds
 }
 
 type FaultSpec struct {
